@@ -256,7 +256,7 @@ fn replay_one(cfg: &Cfg, idx: u64, path: &[Value], exp: &Value, dr: &Value, f3: 
     } else if f3 {
         s.n_flags += 1;
         if s.flags.len() < 4 {
-            s.flags.push(json!({"spec_flag": "F3", "what": "the code does exactly what the specification does with FollowF3 = TRUE, and that state breaks C12_OnGrid",
+            s.flags.push(json!({"spec_flag": "F3", "f3": true, "what": "the code does exactly what the specification does with FollowF3 = TRUE, and that state breaks C12_OnGrid",
                 "path": path, "exp": exp, "cfg": {"levels": cfg.levels, "tick": cfg.tick, "trading": cfg.trading, "t0": cfg.t0}}));
         }
     }
